@@ -22,7 +22,7 @@ SCHEMES = ["http", "https", "ws", "wss"]
 DEFAULT = {"http": 80, "https": 443, "ws": 80, "wss": 443}
 SERVERS = [("h", "default"), ("h", 8080), ("h", 80), ("h", 443), ("10.0.0.1", 80), ("::1", 8000)]
 HOSTS = [None, "x.org", "x.org:81", "[::1]:81"]
-ROOTS = ["", "/r"]
+ROOTS = ["", "/r", "/ré"]
 PATHS = ["/", "/a b", "/é", "/a?b", "/a#b", "", "/a/b.c"]
 QUERIES = [b"", b"a=1", b"a=%20&b"]
 
@@ -189,20 +189,21 @@ def query_helpers(r):
 def repr_check(r):
     from baize.datastructures import URL
 
-    for pw in ("secret", "p@ss", "a:b", "x", "********1"):
+    for pw in ("secret", "p@ss", "@hunter2", "a@b@c", "a:b", ":x:", "x", "********1"):
         for host in ("h.org", "[::1]:80"):
             r.count("evaluations")
             r.count("distinct_nontrivial")
             u1 = URL(f"https://al:{pw}@{host}/p?q#f")
             u2 = URL(f"https://al:other-{pw}@{host}/p?q#f")
+            u3 = URL(f"https://al:zz@{host}/p?q#f")  # reference: whatever the password is, the representation is the same text
             w = {"kind": "repr", "password": pw, "host": host}
             try:
-                a, b = repr(u1), repr(u2)
+                a, b, c = repr(u1), repr(u2), repr(u3)
             except Exception as e:  # noqa
                 r.violation("repr:exception", w, f"repr raised {e!r:.100}")
                 continue
-            if pw in a.replace("********", "") and pw != "x" or a != b:
-                r.violation("repr:password-visible", w, f"repr {a!r} vs {b!r} for password {pw!r}")
+            if pw in a.replace("********", "") and pw != "x" or a != b or a != c:
+                r.violation("repr:password-visible", w, f"repr {a!r} vs {b!r} vs {c!r} for password {pw!r}")
             if pw == "x" and (":x@" in a):
                 r.violation("repr:password-visible", w, f"repr {a!r} shows the password")
 
@@ -211,6 +212,7 @@ def shards(tier, seed):
     out = [("reconstruct", s, i) for s in SCHEMES for i in range(len(SERVERS))]
     out += [("replace", i) for i in range(len(BASES))]
     out.append(("misc",))
+    out.append(("sequences",))
     return out
 
 
@@ -230,6 +232,14 @@ def run_shard(desc, tier):
             for names in itertools.combinations(comps, n):
                 replacement(r, b, names)
         r.sample({"base": base_url(b), "replace": {"hostname": "[::2]", "password": "p@ss", "port": None}})
+    elif desc[0] == "sequences":
+        # several URLs built one after another in one process: the result for one request must not depend on earlier ones
+        for order in (SCHEMES, SCHEMES[::-1], ["http", "ws", "http", "wss", "https", "ws"]):
+            for server in SERVERS:
+                for host in (None, "x.org"):
+                    for scheme in order:
+                        reconstruct(r, scheme, server, host, "", "/chat", b"")
+        r.sample({"sequence": ["http", "ws", "https", "wss"], "server": ["h", 80], "host": None})
     else:
         query_helpers(r)
         repr_check(r)
